@@ -24,7 +24,7 @@ UNIT = dict(
     expect=[("src/lib.rs", r"trait ChanceInfoset \{\s*fn probs\(&self\) -> &\[f64\];\s*\}")],
     assumptions=[
         "idealised-real float mode (machine arithmetic treated as mathematical): rv axioms of prelude/ideal.rs",
-        "wf_node: infoset indices in range, weight vectors as long as child lists, strategy entries >= 0 -- assumed to be established by Game::from_root / strat_into_box (C11 not applicable)",
+        "wf_node: infoset indices in range, weight vectors as long as child lists, strategy entries >= 0 -- assumed to be established by Game::from_root / strat_into_box (C11 decides from_root per node only)",
         "termination of expected() not proved (exec_allows_no_decreases_clause)",
         "AsRef<[f64]>::as_ref is a pure view (assumed contract on std)",
         "PlayerNum::ind two-case spec (discharged by Kani harness playernum_ind)",
